@@ -460,6 +460,56 @@ def check_self_address(run, db, cls, ops):
             run.ok('R-MOVE.5', inst, fn.loc, 're-derives %s' % ', '.join(sorted(derived)))
 
 
+def _self_address_calls(fn):
+    """calls in fn that hand the address of (a part of) *this to something else: an argument contains `this`, `&this->member` or
+    `&this->accessor()`; returns {callee short name}"""
+    out = set()
+    for e, t in flow.call_events(fn):
+        if t.get('k') != 'call' or t.get('short', '').startswith('operator') or t.get('short') in ('move', 'forward', 'addressof'):
+            continue
+        for a in t.get('args', []):
+            for st in subterms(a):
+                if not isinstance(st, dict):
+                    continue
+                hit = False
+                if st.get('k') == 'un' and st.get('op') == '&':
+                    o = sym.strip_casts(st.get('e'))
+                    if isinstance(o, dict) and o.get('k') == 'member' and sym.strip_casts(o.get('base') or {}).get('k') == 'this':
+                        hit = True
+                    if isinstance(o, dict) and o.get('k') == 'call' and ('recv' not in o or sym.strip_casts(o.get('recv') or {}).get('k') in ('this', None)
+                                                                         or (sym.strip_casts(o.get('recv')).get('k') == 'un' and sym.strip_casts(sym.strip_casts(o.get('recv')).get('e')).get('k') == 'this')) \
+                            and o.get('cls') and fn.cls and (o.get('cls') == fn.cls or True) and o.get('short', '').startswith('get_'):
+                        hit = True
+                if hit:
+                    out.add(t.get('short'))
+    return out
+
+
+def check_self_registration(run, db, cls, ops):
+    """an object that registers its own address with something it owns (the constructors hand `&get_x()` / `&member_` to a call)
+    must do so again wherever the owned thing is replaced: move constructor and move assignment repeat the registration"""
+    ct = cls_template(cls)
+    reg = set()
+    for f in db.fns.values():
+        if f.cls == cls and f.kind in ('ctor', 'move-ctor'):
+            reg |= _self_address_calls(f)
+    if not reg:
+        return
+    for kind in ('move-ctor', 'move-assign'):
+        fn = ops.get(kind)
+        if fn is None or (kind == 'move-assign' and is_tmp_swap(fn)):
+            continue
+        have = _self_address_calls(fn)
+        inst = '%s [%s]' % (fn.display, db.config)
+        missing = sorted(reg - have)
+        if missing:
+            run.violation('R-MOVE.8', inst, fn.loc, 'the constructors register the object\'s own address through %s(...); this operation replaces what holds that '
+                          'address but does not register again: the moved-in part keeps pointing into the source object' % ', '.join(missing),
+                          site={'function': '%s::%s' % (ct, kind), 'role': 'own address registered again'})
+        else:
+            run.ok('R-MOVE.8', inst, fn.loc, 'registers its own address again through %s' % ', '.join(sorted(reg)))
+
+
 def check_counter_membership(run, db, cls, ops):
     """if a move/swap skips relinking under `x.empty()`, then counter == 0 must imply "nothing linked":
     every member that lowers the counter unlinks something on the same path"""
@@ -602,6 +652,7 @@ def run(run):
     run.rule('R-MOVE.3', 'destructor safe on the moved-from value', floor=1)
     run.rule('R-MOVE.4', 'release before overwrite in move assignment', floor=2)
     run.rule('R-MOVE.5', 'self-address fields re-derived', floor=2)
+    run.rule('R-MOVE.8', 'own address registered again after a move (deeply tracked allocators)', floor=1)
     run.rule('R-MOVE.6', 'counter-membership invariant behind empty() guards', floor=3)
     run.explanation = ('Per class with user-provided move operations: what is transferred, what the source is left with, what the '
                        'destructor does to that value, and whether assignment releases what it overwrites - all from the CFGs of the '
@@ -620,6 +671,7 @@ def run(run):
             check_dtor_on_empty(run, db, cls, ops)
             check_release_before_overwrite(run, db, cls, ops)
             check_self_address(run, db, cls, ops)
+            check_self_registration(run, db, cls, ops)
             check_counter_membership(run, db, cls, ops)
             check_assign_order(run, db, cls, ops)
     run.count('classes_with_move_operations', n_cls)
